@@ -359,6 +359,8 @@ def check_greedy(prog: Program, res: Result) -> None:
 
 
 def check(prog: Program, res: Result) -> None:
+    from . import _state
+    _state.check_no_memo(prog, res, "C15-pure", ["sleap_nn.evaluation", "sleap_nn.tracking.utils"], floor=10)
     from . import _parallel
     _parallel.check_parallel_index(prog, res, "C15-index")
     from . import _iou
